@@ -27,7 +27,9 @@ impl TokenSet {
     }
 
     pub(crate) const fn contains(&self, kind: SyntaxKind) -> bool {
-        self.0 & mask(kind) != 0
+        // Only kinds below 128 can be members. Node kinds (some of which are also
+        // used as token kinds, e.g. VERSION_STRING) lie above and are never members.
+        (kind as usize) < 128 && self.0 & mask(kind) != 0
     }
 }
 
